@@ -232,7 +232,7 @@ def cmdHostsMerge (a b impl : String) : Result :=
     let pre := keysNodup ha.v4 && keysNodup ha.v6 && keysNodup hb.v4 && keysNodup hb.v6
     { model := showHostsDump m,
       oracle := if impl = "panic" then "fail:C17:hosts-merge-panic"
-                else if !pre || impl = showHostsDump expect then "ok" else "fail:C14:merge-later-file-does-not-win",
+                else if !pre || impl = showHostsDump expect then "ok" else "fail:C14:merge-later-file-does-not-win,fail:C12:later-hosts-file-does-not-override",
       tags := s!"n{min (m.v4.length + m.v6.length) 9}" }
   | _, _ => bad "hostsdump"
 
